@@ -506,7 +506,7 @@ PROPS["C05"] = dict(
 C15_LABELS = {"training_rows_sorted_by_distance", "training_pair_is_logged_pair", "training_noise_is_logged_sd_squared", "no_noise_column_without_noise",
               "nearest_first", "no_closer_row_left_out", "training_set_size_rule", "all_flagged_rows_used", "training_set_extended_by_one",
               "old_training_pairs_kept", "new_training_pair_is_the_observation", "posterior_updated", "acquisition_is_mean_minus_sqrt_beta_sd",
-              "returned_gp_keeps_its_training_set", "training_set_is_logged_data",
+              "returned_gp_keeps_its_training_set", "training_set_is_logged_data", "training_set_is_current_neighbourhood",
               "gp_recentred_on_incumbent", "gp_updated_once_per_observation", "gp_updated_with_the_new_observation"}
 PROPS["C15"] = dict(
     jobs=lambda tier: nb_jobs(tier) + [j for j in rf_jobs(tier) if "HInitRetry" not in j["harness"]] +
@@ -675,7 +675,7 @@ def rf_jobs(tier):
 
 C16_LABELS = {"linalg_failures_do_not_abort", "attempt_arguments_row_consistent", "attempt_rows_are_training_rows", "noise_column_kept_iff_noise",
               "retries_until_success", "success_flag_reports_failures", "exit_flag_reports_failed_update", "returned_gp_keeps_its_training_set", "failed_update_restores_previous_model",
-              "training_set_is_logged_data", "resampled_vector_has_one_entry_per_hyperparameter", "hyperparameters_without_gaussian_prior_kept"}
+              "training_set_is_logged_data", "training_set_is_current_neighbourhood", "resampled_vector_has_one_entry_per_hyperparameter", "hyperparameters_without_gaussian_prior_kept"}
 PROPS["C16"] = dict(
     jobs=rf_jobs, labels=C16_LABELS, required=sorted(C16_LABELS), exc_is_violation=True,
     bounds=dict(quick="robust refit: every schedule of up to 4 consecutive LinAlgErrors (one fresh Bool per attempt), 10-12 concrete training rows with and without a noise column, and 5 rows with symbolic values (drop decisions symbolic) for 2 failures; initial-training retry loop (AST cut): up to 6 failures; posterior update fallback of local_gp_fitting; option use_slice_sampler with a sampler stub enforcing gpyreg's constructor checks, a symbolic noise hyper-parameter and symbolic noise bounds (2 failures) and 6 concrete failures; the GP stub enforces gpyreg's posterior contract (noise vector and training set of equal length, probed on the installed gpyreg) and a posterior computation may fail like a fit",
@@ -696,6 +696,10 @@ def opt_jobs(tier):
             jobs.append(J("h_opt:HOPT", name=nm, D=3, D2=1))
     for bad in ("tol_funn", "maxiter", "Display", ""):
         jobs.append(J("h_opt:HOPT", name=None, bad=bad, D=2))
+    # the Options object of an earlier instance handed in as the options of a new one (same and different dimension)
+    for nm in ("tol_fun", "max_fun_evals", "display") + (("tol_mesh", "random_seed") if tier == "thorough" else ()):
+        for D, D2 in ((2, 3), (2, 2)):
+            jobs.append(J("h_opt:HOPT", name=nm, D=D, D2=D2, caller="options"))
     # options a user supplies explicitly must survive the start of the run (noisy modes adjust several options)
     ux = {"tol_stall_iters": 7, "n_train_max": 60, "n_train_min": 11, "mesh_overflow_warning": 5, "min_failed_poll_steps": 3, "mesh_noise_multiplier": 0.3}
     for level0 in (0, 1, 2):
@@ -713,7 +717,7 @@ C20_LABELS = {"user_value_takes_effect_exactly", "user_value_recorded_as_protect
               "other_options_keep_documented_defaults", "later_instance_sees_its_own_defaults", "earlier_instance_unchanged_by_later_construction",
               "unknown_option_name_rejected", "caller_arrays_unchanged", "caller_options_unchanged", "constructor_leaves_argument_arrays_unchanged",
               "caller_bound_arrays_not_written", "defaults_independent_of_process_history", "user_instance_independent_of_process_history",
-              "user_options_keep_their_values"}
+              "user_options_keep_their_values", "caller_options_object_unchanged", "instances_do_not_share_option_state"}
 PROPS["C20"] = dict(
     jobs=opt_jobs, labels=C20_LABELS, required=sorted(C20_LABELS),
     bounds=dict(quick="every option name found in the two .ini files of the current tree, one symbolic override value each (non-zero real in [2^-20, 2^20]), dimensions (2, then a second instance with 3); 4 unknown names; constructor D<=2 for the caller-array clause",
@@ -725,13 +729,14 @@ PROPS["C20"] = dict(
 # ------------------------------------------------------------------------------------------------ C07 (narrow)
 C07_LABELS = {"seed_recorded", "seeded_before_first_draw", "reseeded_before_first_draw", "reseeded_before_first_target_call", "seeded_x0_draw_independent_of_prior_rng_state",
               "rng_used_only_when_x0_missing", "defaults_independent_of_process_history", "user_instance_independent_of_process_history",
-              "sobol_seed_is_a_function_of_the_start_point", "no_process_dependent_source_in_seed", "no_global_rng_draw_for_a_finite_start_point"}
+              "sobol_seed_is_a_function_of_the_start_point", "no_process_dependent_source_in_seed", "no_global_rng_draw_for_a_finite_start_point", "recovery_draws_come_from_the_seeded_global_generator"}
 PROPS["C07"] = dict(
     jobs=lambda tier: [J("h_bc:HBC", D=D, pat=_pat(D, x0=x0), spell={}, nonlinear=False, seed="sym", twice=True) for D in ((1, 2) if tier == "thorough" else (1,)) for x0 in (None, ["s"] * D, ["nan"] * D)] +
     [J("h_bc:HBC", D=2, pat=_pat(2, x0=None, lb=["-inf", "-inf"], ub=["+inf", "+inf"]), spell={}, nonlinear=False, seed="sym", twice=True)] +
     [j for j in im_jobs(tier) if j["params"].get("seed")] + pm_jobs("quick")[:4] + es_jobs("quick", cons=(None,))[:1] +
     [j for j in ps_jobs("quick", levels=(0,), D2=False)][:2] + [j for j in opt_jobs(tier) if j["harness"] == "h_opt:HOPT" and j["params"].get("name")] +
-    [J("h_bc:HSobolSeed", D=D, scale=sc) for D in (1, 2, 3, 7, 8, 12) for sc in (1.0, 1e6)],
+    [J("h_bc:HSobolSeed", D=D, scale=sc) for D in (1, 2, 3, 7, 8, 12) for sc in (1.0, 1e6)] +
+    [j for j in rf_jobs("quick") if "HPriors" in j["harness"]],
     labels=C07_LABELS, required=sorted(C07_LABELS),
     bounds=dict(quick="seeding protocol: constructor with a symbolic seed in [0,2] (x0 given / absent / NaN, D<=2): the seed is installed before the first draw and recorded; 2-safety: the constructor executed twice from two different prior generator states (draws are variables named by (state, index)) yields the same starting point; _init_optimization_ re-seeds before its first draw; randomness discipline: in every harness the only randomness API available to pybads code is the stubbed global NumPy generator (any other API aborts the path and the check ends inconclusive)",
                 thorough="same"),
